@@ -99,7 +99,12 @@ def run(ctx):
         t = ev.run_fn('<connection_options::ConnectionOptions<Auth> as std::default::Default>::default', [])
         f = {n: S.show(v) for n, v in t[2]} if t[0] == 'struct' else {}
         want = {'auth': 'std::default::Default::default()', 'virtual_host': '"/"', 'locale': '"en_US"', 'channel_max': '0', 'frame_max': '0', 'heartbeat': '60', 'connection_timeout': 'None', 'information': 'None'}
-        r.eq('defaults', f, want, ctx.site('<connection_options::ConnectionOptions<Auth> as std::default::Default>::default'))
+        known = ctx.vocab_fields('connection_options::ConnectionOptions')
+        neutral = ('None', 'false', '0', '""', 'std::default::Default::default()', 'std::collections::BTreeMap::new()')
+        newf = {k: v for k, v in f.items() if k not in want}
+        r.check('defaults', {k: v for k, v in f.items() if k in want} == want and all(k not in known and v in neutral for k, v in newf.items()),
+                ctx.site('<connection_options::ConnectionOptions<Auth> as std::default::Default>::default'), built=f, expected=want,
+                why='the documented defaults; an option that did not exist on the pinned tree may only default to "off"')
         ev = ctx.evaluator(0)
         t = ev.run_fn('<auth::Auth as std::default::Default>::default', [])
         r.eq('default-auth', S.show(t), 'auth::Auth::Plain{password: "guest", username: "guest"}', ctx.site('<auth::Auth as std::default::Default>::default'))
